@@ -24,12 +24,15 @@ def load(repo_root):
 
 def _verify_one(job):
     """worker: verify one function (runs in a subprocess)"""
-    repo_root, fn_key = job
+    repo_root, fn_key = job[0], job[1]
+    extra_requires = job[2] if len(job) > 2 else []
     sys.setrecursionlimit(10000)
     from .verify import FunctionVerifier
     from .loader import Unsupported
     repo, db = load(repo_root)
     c = db.contracts[fn_key]
+    if extra_requires:
+        c.requires = list(c.requires) + list(extra_requires)
     t0 = time.time()
     try:
         fv = FunctionVerifier(repo, db, c)
@@ -54,7 +57,8 @@ def _verify_one(job):
     return {"fn": fn_key, "error": rep.error, "crash": rep.crash, "obligations": obs, "paths": rep.paths,
             "reachable": rep.reachable_paths, "queries": rep.queries, "assumed": sorted(rep.assumed),
             "wall": round(rep.wall, 3), "solver_time": round(rep.solver_time, 3), "sha": rep.finfo.sha,
-            "notes": sorted(rep.notes), "exits": rep.exits}
+            "notes": sorted(rep.notes), "exits": rep.exits, "schema": rep.schema,
+            "clock": list(c.clock), "ensures": dict(c.ensures), "raises": {r.exc: r.when for r in c.raises}}
 
 
 def _lemma_one(job):
@@ -90,4 +94,21 @@ def run_check(prop, tier, repo_root, only=None, verbose=False):
             lfuts = [pool.submit(_lemma_one, (repo_root, i)) for i in lemma_idx]
             results = [f.result() for f in futs]
             lemma_results = [f.result() for f in lfuts]
-    return finish(prop, tier, repo_root, db, results, lemma_results, time.time() - t0, verbose=verbose)
+    def reverify(fn_key, obname, case):
+        """re-run one function under the negated case predicate of a known finding"""
+        if fn_key.startswith("lemma::"):
+            return "failed"
+        res = _verify_one((repo_root, fn_key, [f"not ({case})"]))
+        if res["error"] or res["crash"]:
+            return "undecided"
+        e = res["obligations"].get(obname)
+        if e is None:
+            return "discharged"
+        return e["status"]
+
+    extra = dict(db.meta.get(prop, {}))
+    if tier == "thorough":
+        from .thorough import run_thorough
+        extra.update(run_thorough(prop, repo_root, db, keys) or {})
+    return finish(prop, tier, repo_root, db, results, lemma_results, time.time() - t0, verbose=verbose,
+                  reverify=reverify, extra=extra)
